@@ -255,9 +255,9 @@ def report_death(chk, exe, site, prog, specs2, cs, opt):
     text, calls = (prog['text'], cs) if known else shrink_prog(exe, prog['text'], specs2, cs, opt, site=site)
     p = write_prog(text, 'final')
     outs2 = run_prog(exe, p, specs2, calls, opt)
-    chk.finding('gen-died:' + site, dict(kind='ifaces', text=text, specs=specs2, calls=calls, opt=opt, outs=outs2),
-                'the code generator dies in %s at -O%d (interpreter runs the program): [%s] -> %s  (calls: %s)' % (
-                    site, opt, specs2[1], outs2[1][-120:], ' ; '.join(calls)))
+    return chk.finding('gen-died:' + site, dict(kind='ifaces', text=text, specs=specs2, calls=calls, opt=opt, outs=outs2),
+                       'the code generator dies in %s at -O%d (interpreter runs the program): [%s] -> %s  (calls: %s)' % (
+                           site, opt, specs2[1], outs2[1][-120:], ' ; '.join(calls)))
 
 
 def run(chk):
@@ -302,8 +302,8 @@ def run(chk):
             if site in seen_sites:
                 continue
             seen_sites.add(site)
-            report_death(chk, exe, site, prog, specs2, cs, opt)
-            found += 1
+            if report_death(chk, exe, site, prog, specs2, cs, opt):   # a listed known finding does not end the search
+                found += 1
         if res is not None:
             found += 1
             report(chk, exe, res)
